@@ -5,6 +5,8 @@ import ElaVerif.Model.Sha256
 
     dec <schema> <pv> <hex> [alloc=<measured>]     → ok <consumed> <re-encoding> | err | bad-op
     tx <hex> [alloc=<measured>]                    → ok <consumed> <version> <type> <pv> <#attr> <#in> <#out> <lockTime> <#prog> <re-encoding> <hash> | err | uncovered
+    varuint <n>                               → ok <WriteVarUint n> <value read back> <bytes left> (value transfer: the model encodes n itself)
+    vb <n> | vs <n>                           → ok <encoded length> <sha256d(encoding)> <length read back> <bytes left>
     block <hex> [alloc=<measured>]                 → ok <consumed> <ntx> <sha256d(re-encoding)> <header hash> | err | uncovered
 
   `<hash>` = sha256d of the model's *unsigned* serialization.  With the optional `alloc=<measured>`
@@ -162,7 +164,32 @@ def stepBlock (hex : String) (extra : List String) : String :=
         s!"ok {bs.length - rest.length} {b.txs.length} {toHex (Sha256.sha256d (encodeBlock b))} {toHex (headerHash b.header)}"
       | none => "err"
 
+/-- `varuint <n>`: `WriteVarUint n`, then `ReadVarUint` on the result followed by one more byte -/
+def stepVarUint (ns : String) : String :=
+  match ns.toNat? with
+  | none => "bad-op"
+  | some n =>
+    let e := encVarUint n
+    match decVarUint (e ++ [0xaa]) with
+    | some (v, r) => s!"ok {toHex e} {v} {r.length}"
+    | none => s!"ok {toHex e} err"
+
+/-- `vb <n>` / `vs <n>`: `WriteVarBytes` / `WriteVarString` of `n` bytes `0xab`, read back with a 16 MiB limit -/
+def stepVarBytes (ns : String) : String :=
+  match ns.toNat? with
+  | none => "bad-op"
+  | some n =>
+    let ty := Ty.varBytes 16777216
+    let e := encode ty (.bytes (List.replicate n 0xab))
+    let h := toHex (Sha256.sha256d e)
+    match (decodeA ty (e ++ [0xaa])).res with
+    | some (.bytes b, r) => s!"ok {e.length} {h} {b.length} {r.length}"
+    | _ => s!"ok {e.length} {h} err"
+
 def step : List String → String
+  | ["varuint", n] => stepVarUint n
+  | ["vb", n] => stepVarBytes n
+  | ["vs", n] => stepVarBytes n
   | "dec" :: name :: pv :: hex :: extra => stepDec name pv hex extra
   | "tx" :: hex :: extra => stepTx hex extra
   | "block" :: hex :: extra => stepBlock hex extra
